@@ -31,17 +31,27 @@ EXPLANATION = (
     "SEG0/1/2_LEN, UDP LENGTH, SCMP TYPE; computed from the has_required_size call graphs) is written only by `unsafe fn`s. "
     "(ESC-sib) sibling typed views agree on the safety qualifier of as_raw_mut. (REPR) every view type is repr(transparent) over "
     "[u8] / [u8; N]. (PANIC) no undischarged panic site reachable from any constructor or any function with a view receiver "
-    "(627 functions), with a view-invariant discharge for ranges derived from the view's own layout."
+    "(627 functions), with a view-invariant discharge for ranges derived from the view's own layout. "
+    "(ACC) the contract of unchecked_bit_range_be_read/write — range spans <= 16 bytes and ends within a lower bound of the "
+    "buffer operand's length — decided at all 172 call sites outside the encoders (constant and shifted ranges evaluated "
+    "statically; bounds from min_valid_len, array-backed views, caller-derived parameters, dominating guards with computed "
+    "bounds by interval interpretation). (HRS) for each of the 20 View impls has_required_size(buf) = Ok(size) implies "
+    "size <= buf.len() — View::try_from_slice splits with split_at_unchecked(size) — by constant/len/min/guard arguments on a "
+    "symbolic normal form (layout functions inlined), through layout constructors and enum layouts. (CTOR-unsafe) all 63 "
+    "from_*_unchecked constructors are unsafe fns and every view struct keeps its bytes private. Thorough tier: the dev "
+    "configuration's debug_assert! contracts of core::{layout,read,write,view} are tied to invariants re-decided at every call "
+    "site (br-aligned, br-sizebits, acc-contract, hrs); 7 compile-fail witnesses (with compiling twins) make rustc itself "
+    "reject safe-code use of the unchecked constructors, size-field writers, raw mutable escape and unchecked encoder."
 )
 RESIDUAL = [
     "numeric correctness of the layout arithmetic for variable parts (address header and path offsets inside ScionHeaderLayout / StdPathDataLayout): sub-view ranges "
     "computed by layout methods are covered only by the taint rule, not bounded against the validated size",
-    "the remaining unsafe primitives outside view methods (get_unchecked in layout code, from_*_unchecked sub-view creation): enumerated in the evidence, not individually discharged",
+    "the remaining unsafe primitives outside view methods (get_unchecked in layout code; the *arguments* of from_*_unchecked sub-view creation inside accessors): enumerated in the evidence, not individually discharged",
     "termination (all loops in scope are iterator-driven: listed, not proved)",
 ]
 ASSUMPTIONS = ["unchecked_bit_range_be_read/write access exactly the bytes containing the given bit range (their 16-byte lane indexing is covered by the LANE rule of C12)",
                "encode paths are covered by the ENC contract of C03"]
-TECHNIQUE = "unsafe-discipline rules over the view types (size-field writers, unchecked accesses within the validated layout, mutable escapes), dispatch-table agreement, panic-site reachability"
+TECHNIQUE = "unsafe-discipline rules over the view types (size-field writers, unchecked accesses within the validated layout, mutable escapes), interval/congruence abstract interpretation of size arithmetic, symbolic size comparison, dispatch-table agreement, panic-site reachability, compile-fail witnesses (thorough)"
 
 VIEW_TRAIT = "sciparse::core::view::View"
 
@@ -568,6 +578,7 @@ def run(F, R, tier, cfg):
     M = accessor_rule(F, R, vts, fns)
     ACC.run(F, R, M, "view", 160)       # 172 sites counted on 8f07ce4 (156 slice-backed view, 14 array-backed, 1 guarded, 1 debug renderer)
     hrs_rule(F, R, vts)
+    ctor_unsafe_rule(F, R, vts)
     dispatch_rule(F, R, vts, M)
     payload_rules(F, R, vts)
     sz_rule(F, R, vts)
@@ -790,3 +801,62 @@ def hrs_rule(F, R, vts):
                         "splits the input with split_at_unchecked(size) past its end — the view is longer than the bytes it was built from" % (V.split("::")[-1], why), F.loc(h))
     R.floor("HRS", n, 20, "View impls (has_required_size)")
     R.extra["hrs"] = kinds
+
+
+def ctor_unsafe_rule(F, R, vts):
+    """CTOR-unsafe: a view value can only come from a validating constructor.  (a) every `from_*_unchecked` constructor —
+    the three View trait items and all their impls, plus inherent ones — is an `unsafe fn`; (b) every view struct keeps its
+    byte field private (no struct-literal construction outside the module); (c) transmutes / raw casts that create a view
+    reference occur only inside unsafe fns or unsafe blocks of the view modules (REPR covers the layout side).  A safe
+    `from_slice_unchecked` compiles, passes every test, and lets safe code build a view over a too-short buffer."""
+    n = 0
+    for k, v in sorted(getattr(F, "decls", {}).items()):
+        if re.search(r"core::view::View::from_(mut_)?(slice|boxed)_unchecked$", k):
+            n += 1
+            ok = bool(v.get("unsafe"))
+            R.ob("CTOR-unsafe", "trait item %s is unsafe" % short(k), ok, False)
+            if not ok:
+                R.violation("CTOR-unsafe", k, "the View trait declares %s as a safe fn: safe code can create unvalidated views of every view type" % short(k), None)
+    for p, e in sorted(F.fns.items()):
+        if e["_crate"] == "sciparse" and re.search(r"::from_(mut_)?(slice|boxed)_unchecked$", p) and not T.is_test_support(p):
+            n += 1
+            ok = bool(e.get("unsafe"))
+            R.ob("CTOR-unsafe", "%s is unsafe" % short(p), ok, False)
+            if not ok:
+                R.violation("CTOR-unsafe", p, "%s is a safe fn: safe code can create a view over a buffer that was never size-checked" % short(p), F.loc(p))
+    R.floor("CTOR-unsafe", n, 55, "from_*_unchecked constructors (3 trait items + 60 impls counted on 8f07ce4)")
+    m = 0
+    for V in sorted(vts):
+        a = F.adts.get(V)
+        if not a:
+            continue          # type aliases of a generic view (ScionPacketView<Udp>) share the generic struct's fields
+        m += 1
+        fields = a["variants"][0][2]
+        ok = all(f[2] != "pub" for f in fields)
+        R.ob("CTOR-unsafe", "%s: byte field(s) private" % V.split("::")[-1], ok, False)
+        if not ok:
+            R.violation("CTOR-unsafe", V + "/field", "%s has a public field: safe code can build the view from arbitrary bytes with a struct literal" % V.split("::")[-1], None)
+    R.floor("CTOR-private", m, 16, "view structs")
+
+
+def thorough_extra(R):
+    """thorough tier only: compile-fail witnesses — rustc itself must reject safe-code access to the unchecked constructors,
+    the size-field writers, the raw mutable escape, the unchecked encoder and struct-literal construction of a view, and must
+    accept the twin that differs only in the offending construct."""
+    import witness
+    try:
+        res, tail = witness.run()
+    except Exception as e:       # build environment problem: fail closed
+        R.violation("WITNESS", "harness", "compile-fail witness harness could not be run: %s" % e, None)
+        return
+    R.extra["witnesses"] = res
+    n = 0
+    for w, r in sorted(res.items()):
+        n += 1
+        ok = r["compile_fail"] is True and r["twin_compiles"] is True
+        R.ob("WITNESS", "%s: the violating program is rejected by rustc with the stated error code and its twin compiles" % w, ok, True,
+             {"rule": "WITNESS", "witness": w, "result": r, "holds": ok})
+        if not ok:
+            why = "the violating program compiles" if r["compile_fail"] is False else ("the twin does not compile (witness path is stale)" if r["twin_compiles"] is False else "no verdict (build failed?)")
+            R.violation("WITNESS", w, "compile-fail witness %s (engine/witness/src/lib.rs) no longer holds: %s" % (w, why), None, {"log_tail": tail[-1200:]})
+    R.floor("WITNESS", n, 7, "compile-fail witnesses with compiling twins")
